@@ -588,6 +588,8 @@ pub struct GenCfg {
     pub hostile_names: bool,
     /// `Cow` around user-defined types
     pub cow_def: bool,
+    /// doc blocks that start with / consist of blank lines, padded lines
+    pub odd_docs: bool,
     pub docs: bool,
 }
 
@@ -614,6 +616,7 @@ impl Default for GenCfg {
             allow_codec_skip: true,
             hostile_names: false,
             cow_def: true,
+            odd_docs: true,
             docs: true,
         }
     }
@@ -930,7 +933,11 @@ impl<'r, R: Rng> ProgGen<'r, R> {
                             style,
                             fields: self.gen_fields(&cx, style, &mut direct),
                             docs: if self.cfg.docs && self.chance(0.2) {
-                                vec!["variant doc".into(), "second line".into()]
+                                if self.cfg.odd_docs && self.chance(0.3) {
+                                    vec!["".into(), " variant doc after a blank first line".into()]
+                                } else {
+                                    vec!["variant doc".into(), "second line".into()]
+                                }
                             } else {
                                 vec![]
                             },
@@ -944,7 +951,21 @@ impl<'r, R: Rng> ProgGen<'r, R> {
                 name: heads[me].1.clone(),
                 params,
                 kind,
-                docs: if self.cfg.docs && self.chance(0.3) { vec![format!("Docs of {}", heads[me].1)] } else { vec![] },
+                docs: if self.cfg.docs && self.chance(0.3) {
+                    if self.cfg.odd_docs && self.chance(0.35) {
+                        // blocks as `/// ` + blank lines leave them in metadata
+                        match self.rng.gen_range(0..4) {
+                            0 => vec!["".into(), format!(" Summary of {}", heads[me].1)],
+                            1 => vec!["".into()],
+                            2 => vec![format!(" Docs of {} ", heads[me].1), "".into(), " after a blank line".into()],
+                            _ => vec![" ".into(), "x".into()],
+                        }
+                    } else {
+                        vec![format!("Docs of {}", heads[me].1)]
+                    }
+                } else {
+                    vec![]
+                },
             };
             make_compilable(&mut def, me);
             defs.push(def);
